@@ -445,13 +445,14 @@ Fixpoint assign_path (m : machine) (container : value) (path : list index) (v : 
 Definition rt_err {A} (m : machine) : outcome A := fail_here ERuntime m.
 
 Definition is_builtin (name : text) : bool := existsb (text_eqb name) builtin_names.
-Definition bi (n : nat) : text := nth n builtin_names [].     (* built-in names in the order of the source table *)
 
-(* the built-in functions, after the arguments were evaluated.  Errors are RuntimeError at the current statement. *)
-Definition call_builtin (name : text) (args : list value) (m : machine) : outcome (value * machine) :=
+(* the built-in operations, after the arguments were evaluated; [op] is the operation the name dispatches to
+   (table builtin_ops, regenerated from the arms of call_built_in_function).
+   Errors are RuntimeError at the current statement. *)
+Definition builtin_op (op : nat) (args : list value) (m : machine) : outcome (value * machine) :=
   let h := m_heap m in
   let w := m_world m in
-  let is n := text_eqb name (bi n) in
+  let is n := Nat.eqb op n in
   if is 0 then (* _স্ট্রিং *)
     match args with
     | [VNum x] => Ok (VStr (map_chars builtins_en_to_bn (f64_to_string x)), m)
@@ -587,6 +588,12 @@ Definition call_builtin (name : text) (args : list value) (m : machine) : outcom
     end
   else Panic SiteUnwrap.
 
+Definition call_builtin (name : text) (fpos : pos) (args : list value) (m : machine) : outcome (value * machine) :=
+  match assoc_text name builtin_ops with
+  | Some op => builtin_op op args m
+  | None => fail_at ERuntime fpos m          (* "Built-in function not defined", located at the function token *)
+  end.
+
 (* one fuel unit per nested evaluation / interpreted statement; [eval], [interp] and the call loop are mutually recursive *)
 Fixpoint eval (fuel : nat) (e : expr) (m : machine) {struct fuel} : outcome (value * machine) :=
   match fuel with
@@ -704,7 +711,7 @@ Fixpoint eval (fuel : nat) (e : expr) (m : machine) {struct fuel} : outcome (val
         | EVar name np =>
             if is_builtin name then
               do '(vs, m1) <- eval_list args m;
-              call_builtin name vs m1
+              call_builtin name np vs m1
             else
               do fv <- (match lookup_var name (m_scopes m) with Some v => Ok v | None => rt_err m end);
               match fv with
